@@ -61,4 +61,5 @@ def caps(v, e, f, c, fv, cv, out, inc, gv=0, ge=0, gf=0, gc=0, gfv=0, gcv=0, gou
     """pre-state caps P* and loop bounds L* (= caps + growth)"""
     d = dict(PV=v, PE=e, PF=f, PC=c, PFV=fv, PCV=cv, POUT=out, PINC=inc)
     d.update(dict(LV=v + gv, LE=e + ge, LF=f + gf, LC=c + gc, LFV=fv + gfv, LCV=cv + gcv, LOUT=out + gout, LINC=inc + ginc))
+    d['VSTD_CAP_DEFAULT'] = max(d['LV'], 2 * d['LE'], 2 * d['LF'], d['LC'], d['LFV'], d['LCV'], d['LOUT'], d['LINC'], 2)
     return d
